@@ -171,6 +171,25 @@ Theorem C10_front_compile_whole : forall s prog, front s = Some prog ->
 Proof. exact front_compile_whole. Qed.
 Print Assumptions C10_front_compile_whole.
 
+(* The whole of _compile_prolog_from_stream up to the intermediate code (compile_front = front, compile_program, and the
+   compiler's own refusal of a numeral-named compound term that it reaches): code is produced only for complete
+   sentences of the grammar, and then for the whole sentence -- every clause node is one AST clause, every AST clause
+   has its code in the one function of its head key. *)
+Theorem C10_compile_front_rejects_non_sentences : forall s, ~ sentence s -> compile_front s = None.
+Proof. exact compile_front_rejects_non_sentences. Qed.
+Print Assumptions C10_compile_front_rejects_non_sentences.
+
+Theorem C10_compile_front_whole : forall s prog ir, compile_front s = Some (prog, ir) ->
+  front s = Some prog /\ compile_program prog = Some ir /\ ir_bad ir = false /\
+  (exists items cst k,
+     lexes s items [] /\ concat (map snd items) = s /\ yield cst = map norm (filter keep items) /\
+     v_program cst 0 = Some (prog, k) /\ Forall2 clause_image (clauses_of cst) prog) /\
+  exists ks, keys_ok ks prog /\
+    Forall2 (fun k f => fn_key f = k /\ exists pieces, fn_body f = concat pieces /\
+                        Forall2 clause_code (filter (has_key k) prog) pieces) ks ir.
+Proof. exact compile_front_whole. Qed.
+Print Assumptions C10_compile_front_whole.
+
 (* non-vacuity: a two-clause text with a comment is accepted with both clauses; the D9 inputs are refused *)
 Example C10_nonvacuous :
   (exists c1 c2, front (d "p(a). % c\10;q(X) :- p(X), \92;+ r.") = Some [c1; c2] /\ c_name c1 = d "p" /\ c_name c2 = d "q") /\
@@ -186,6 +205,6 @@ Example C10_nonvacuous :
    canonical t = false /\ canonical (canon_program t) = true /\ parse (yield t) = Some (canon_program t) /\
    canon_program t <> t).
 Proof.
-  split; [|repeat split; try (vm_compute; reflexivity); discriminate].
+  split; [|repeat split; try (vm_compute; reflexivity); try discriminate; eexists; vm_compute; reflexivity].
   eexists; eexists. vm_compute. repeat split; reflexivity.
 Qed.
